@@ -61,6 +61,7 @@ ImplStep(st, rm, d, S) ==
   LET a == S.a IN
   CASE S.op = "Init"     -> ImplFresh(Tr.def, Tr.rules)
     [] S.op \in {"Clear", "Recreate"} -> ImplFresh(a.def, a.rules)
+    [] S.op = "ClearKeep" -> ImplFresh(d, <<>>)         \* clear(): files emptied, RAM rules kept (now dormant)
     [] S.op \in {"Reopen", "Skip"} -> Res(st, 0, <<>>, "")
     [] S.op \in {"Paginate", "PagLinks"} -> Res(st, 0, <<>>, S.exc)   \* read-only (clauses: Queries)
     [] S.op = "AddPage"  -> AddPageReq(st, rm, d, a.l, a.cr)
@@ -82,6 +83,7 @@ AbsStep(A, st, rm, d, S) ==
   LET a == S.a IN
   CASE S.op = "Init"     -> AbsFresh(Tr.def, Tr.rules)
     [] S.op \in {"Clear", "Recreate"} -> AbsFresh(a.def, a.rules)
+    [] S.op = "ClearKeep" -> AbsFresh(d, <<>>)
     [] S.op \in {"Reopen", "Skip"} -> NoReport(A, "")
     [] S.op \in {"Paginate", "PagLinks"} -> NoReport(A, S.exc)
     [] S.op = "AddPage"  -> AbsAddPage(A, rm, d, a.l, a.cr)
